@@ -191,6 +191,34 @@ func (w *writerA) frameHeader(ruleHdr, ruleB0, ruleMask string) {
 					}
 				}
 				if !found {
+					// the same bytes stored one by one: evaluated for sample lengths of the class
+					samples := []int64{126, 255, 256, 0x1234, 0xfedc, 65535}
+					if ext == 8 {
+						samples = []int64{65536, 65537, 0x12345678, 0x0102030405060708, 1<<40 + 5, 1<<62 + 3}
+					}
+					found = true
+					for j := int64(0); j < ext && found; j++ {
+						bj := storedAt(p, WB, x.T.Int(loC+2+j), i)
+						if bj == nil {
+							found = false
+							break
+						}
+						for _, sv := range samples {
+							v, okE := x.Eval(bj, func(t *core.Term) (constant.Value, bool) {
+								if t == L {
+									return constant.MakeInt64(sv), true
+								}
+								return nil, false
+							})
+							got, _ := constant.Int64Val(v)
+							if !okE || got&0xff != (sv>>(8*uint(ext-1-j)))&0xff {
+								found = false
+								break
+							}
+						}
+					}
+				}
+				if !found {
 					okH, whyH = false, fmt.Sprintf("%s form: the extended length is not written by %s(writeBuf[header+2:], length)", class, want)
 				}
 			}
